@@ -91,7 +91,7 @@ high_rom_bus.map("2", (0x7E, 0x7F), (0, 0xFFFF), mask=0x1_0000, writeable=True)
 
 high_rom_bus.editable = False
 
-BUS_MAPPING = {RomType.low_rom: low_rom_bus, RomType.high_rom: high_rom_bus}
+BUS_MAPPING = {RomType.low_rom: low_rom_bus, RomType.low_rom_2: low_rom_bus, RomType.high_rom: high_rom_bus}
 
 
 class Resolver:
